@@ -26,17 +26,21 @@ type c16Variant struct {
 	Pkg   c16Pkg            `json:"package"`
 	Files map[string]string `json:"files"`
 	Order []string          `json:"order"`
+	Lib   bool              `json:"as_imported_package,omitempty"`
 }
 
 // c16File renders one file: package clause, the imports this file's text needs
 // (a file that needs none starts directly with a declaration), declarations.
-func c16File(decls []string) string {
+func c16File(decls []string) string { return c16FileImports(decls, false) }
+
+// c16FileImports: with both set, the file imports fmt and strings whatever it uses (identical headers).
+func c16FileImports(decls []string, both bool) string {
 	body := strings.Join(decls, "\n")
 	var imps []string
-	if strings.Contains(body, "fmt.") {
+	if both || strings.Contains(body, "fmt.") {
 		imps = append(imps, "\t\"fmt\"\n")
 	}
-	if strings.Contains(body, "strings.") {
+	if both || strings.Contains(body, "strings.") {
 		imps = append(imps, "\t\"strings\"\n")
 	}
 	h := "package main\n\n"
@@ -45,6 +49,11 @@ func c16File(decls []string) string {
 	}
 	return h + body
 }
+
+// c16LitA / c16LitB have the same shape, so that their literals sit at the same line and column when each is the
+// first declaration of its file; both literals declare a local type named rec.
+const c16LitA = "func litA() string {\n\tf := func() string {\n\t\ttype rec struct {\n\t\t\tx int\n\t\t}\n\t\treturn fmt.Sprint(&rec{x: 1}, strings.Repeat(\"a\", 2))\n\t}\n\treturn f()\n}\n"
+const c16LitB = "func litB() string {\n\tf := func() string {\n\t\ttype rec struct {\n\t\t\ty string\n\t\t}\n\t\treturn fmt.Sprint(&rec{y: \"s\"}, strings.Repeat(\"b\", 2))\n\t}\n\treturn f()\n}\n"
 
 // c16Wide: 20 fields, so that its names are interned 16 and more apart.
 var c16Wide = func() string {
@@ -91,6 +100,8 @@ func c16Gen(seed int64, idx int) c16Pkg {
 		"type Pair struct {\n\tF00 int\n\tF16 int\n\tF08 int\n}\n",
 		"func pair(n int) *Pair {\n\tp := &Pair{F00: n, F16: n + 1}\n\tp.F16 += 10\n\tp.F08 = p.F00 + p.F16\n\tp.F00++\n\treturn p\n}\n",
 		"func wide(n int) *Wide {\n\tw := &Wide{F03: n, F19: n * 2}\n\tw.F19 += w.F03\n\tw.F16 = 7\n\tw.F00 = w.F16 + w.F19\n\treturn w\n}\n",
+		"func localT(n int) int {\n\ttype Size struct {\n\t\tA int\n\t}\n\tv := &Size{A: n}\n\treturn v.A + 1\n}\n",
+		c16LitA, c16LitB,
 		"func even(n int) bool {\n\tif n == 0 {\n\t\treturn true\n\t}\n\treturn odd(n - 1)\n}\n",
 		"func odd(n int) bool {\n\tif n == 0 {\n\t\treturn false\n\t}\n\treturn even(n - 1)\n}\n",
 	)
@@ -114,7 +125,7 @@ func c16Gen(seed int64, idx int) c16Pkg {
 		body.WriteString("\treturn x\n}\n")
 		p.Hoist = append(p.Hoist, body.String())
 	}
-	p.Hoist = append(p.Hoist, fmt.Sprintf("func main() {\n\tfmt.Println(\"main\", g0, g1, g2, g3, f%d(g1), mk(k2).B.Name())\n\tfmt.Println(odd(k2), even(k1), gs, Tag(mk(k1)), Name(mk(k2).B), S)\n\tsz := &Size{W: k1, H: 2}\n\tbx := &Box{Tag: \"b\"}\n\tp := pair(k2)\n\tw := wide(k1)\n\tfmt.Println(area(sz, bx), sz.W, sz.H, bx.H, bx.W, p.F00, p.F16, p.F08, w.F00, w.F03, w.F16, w.F19)\n\tfmt.Println(\"S: \", sz, bx, p)\n}\n", nf-1))
+	p.Hoist = append(p.Hoist, fmt.Sprintf("func main() {\n\tfmt.Println(\"main\", g0, g1, g2, g3, f%d(g1), mk(k2).B.Name())\n\tfmt.Println(odd(k2), even(k1), gs, Tag(mk(k1)), Name(mk(k2).B), S)\n\tsz := &Size{W: k1, H: 2}\n\tbx := &Box{Tag: \"b\"}\n\tp := pair(k2)\n\tw := wide(k1)\n\tfmt.Println(area(sz, bx), sz.W, sz.H, bx.H, bx.W, p.F00, p.F16, p.F08, w.F00, w.F03, w.F16, w.F19)\n\tfmt.Println(\"S: \", sz, bx, p, litA(), litB(), localT(4), bl)\n}\n", nf-1))
 	// the spine keeps its order: later initialisers depend on earlier ones
 	p.Spine = []string{
 		fmt.Sprintf("const k1 = %d\n", rng.Range(1, 9)),
@@ -124,6 +135,10 @@ func c16Gen(seed int64, idx int) c16Pkg {
 		"var g2 = mk(g1 & 7).Inc() + k2\n",
 		fmt.Sprintf("var g3 = fmt.Sprint(even(g2&7), f%d(g2))\n", rng.Intn(nf)),
 		"var gs []string\n",
+		"var bl []string\n",
+		// package-level statements (goatlang runs them in place; for the Go reference each is wrapped into an init function)
+		"if g0 > 0 {\n\tsz := &Size{W: g0, H: 2}\n\tbl = append(bl, fmt.Sprint(sz.W+sz.H, localT(3)))\n}\n",
+		"for i := 0; i < 2; i++ {\n\tb := &Box{H: i}\n\tbl = append(bl, fmt.Sprint(b.H))\n}\n",
 		"var S = Tag(mk(k2)) + fmt.Sprint(g0)\n", // a variable sharing its name with a field
 		"func init() {\n\tfmt.Println(\"init\", g0, g1, g2, g3)\n\tg0 += 10\n\tgs = append(gs, \"i1\")\n}\n",
 	}
@@ -133,8 +148,17 @@ func c16Gen(seed int64, idx int) c16Pkg {
 	return p
 }
 
-func c16Canonical(p c16Pkg, dir string) map[string]string {
-	return map[string]string{dir + "/main.go": c16File(append(append([]string{}, p.Hoist...), p.Spine...))}
+// c16Canonical is the single-file layout; forGo wraps package-level statements into init functions.
+func c16Canonical(p c16Pkg, dir string, forGo bool) map[string]string {
+	spine := append([]string{}, p.Spine...)
+	if forGo {
+		for i, it := range spine {
+			if strings.HasPrefix(it, "if ") || strings.HasPrefix(it, "for ") {
+				spine[i] = "func init() {\n\t" + strings.ReplaceAll(strings.TrimSuffix(it, "\n"), "\n", "\n\t") + "\n}\n"
+			}
+		}
+	}
+	return map[string]string{dir + "/main.go": c16File(append(append([]string{}, p.Hoist...), spine...))}
 }
 
 // c16Layout builds one variant: hoistables permuted, merged with the spine
@@ -164,6 +188,32 @@ func c16Layout(p c16Pkg, rng *core.Rng, dir string) c16Variant {
 		}
 	}
 	nfiles := rng.Range(1, 3)
+	twin := rng.Chance(1, 4)
+	if twin {
+		// two files that begin alike: litA heads one, litB the other
+		var rest []string
+		for _, o := range order {
+			if o != c16LitA && o != c16LitB {
+				rest = append(rest, o)
+			}
+		}
+		cut := rng.Intn(len(rest) + 1)
+		v := c16Variant{Pkg: p, Files: map[string]string{}}
+		h1, h2 := c16LitA, c16LitB
+		if rng.Bool() {
+			h1, h2 = h2, h1
+		}
+		// (the spine keeps its order: the first part goes into the file that sorts first)
+		fa := append([]string{h1}, rest[:cut]...)
+		fb := append([]string{h2}, rest[cut:]...)
+		n1, n2 := "a_twin.go", "b_twin.go"
+		v.Files[dir+"/"+n1] = c16FileImports(fa, true)
+		v.Files[dir+"/"+n2] = c16FileImports(fb, true)
+		for _, o := range append(append([]string{}, fa...), fb...) {
+			v.Order = append(v.Order, firstLine(o))
+		}
+		return v
+	}
 	names := []string{"a.go", "b.go", "c.go", "m.go", "z.go", "A.go", "main.go", "0.go", "_u.go", "zz_last.go", "a1.go", "a10.go", "a2.go"}
 	core.Shuffle(rng, names)
 	chosen := append([]string{}, names[:nfiles]...)
@@ -185,13 +235,27 @@ func c16Layout(p c16Pkg, rng *core.Rng, dir string) c16Variant {
 	return v
 }
 
+// c16AsLibrary turns a layout of package main into the same files as an imported package lib plus a main that
+// calls its entry point: the order and file layout of an imported package's declarations are irrelevant too.
+func c16AsLibrary(files map[string]string, dir string) map[string]string {
+	root := dir[:strings.LastIndex(dir, "/")]
+	out := map[string]string{}
+	for name, src := range files {
+		src = strings.Replace(src, "package main\n", "package lib\n", 1)
+		src = strings.Replace(src, "func main() {", "func Run() {", 1)
+		out[root+"/lib/"+name[strings.LastIndex(name, "/")+1:]] = src
+	}
+	out[dir+"/main.go"] = fmt.Sprintf("package main\n\nimport %q\n\nfunc main() {\n\tlib.Run()\n}\n", root+"/lib")
+	return out
+}
+
 func c16RunGoat(files map[string]string, dir string) core.Outcome {
 	m := core.NewMachine(core.VMOpts{Optimize: true, Obs: core.NewObs(core.SmallBudget, false, nil)})
 	return m.LoadMain(core.MapFS(files), dir)
 }
 
 func runC16(r *core.Run) {
-	r.SetRule("generated packages: two struct types referring to each other, methods (also declared before their type), a constructor, functions and a variable sharing their names with a field or a method, struct types sharing field names in another order and a 20-field type whose names a narrow type reuses (all written, read and printed whole), a mutually recursive pair, 2-6 functions calling earlier ones, main; and a fixed-order spine of constants, variable initialisers that call those functions, and one or two init functions. Each package is laid out in many variants: hoistable declarations permuted, merged with the spine at random positions (spine order kept), cut into 1-3 files with sort-order trap names, imports repeated per file. Every variant must print what the canonical single-file layout prints, and the canonical layout what Go prints. non-trivial = canonical layout accepted by Go; distinct by file tree")
+	r.SetRule("generated packages: two struct types referring to each other, methods (also declared before their type), a constructor, functions and a variable sharing their names with a field or a method, struct types sharing field names in another order and a 20-field type whose names a narrow type reuses (all written, read and printed whole), a mutually recursive pair, 2-6 functions calling earlier ones, main; and a fixed-order spine of constants, variable initialisers that call those functions, and one or two init functions. Each package is laid out in many variants: hoistable declarations permuted, merged with the spine at random positions (spine order kept), cut into 1-3 files with sort-order trap names, imports repeated per file; one variant in three is the same file set as an imported package (entry point called from a one-line main); one in four puts two like-shaped functions with literal-local types at the head of two files. Every variant must print what the canonical single-file layout prints, and the canonical layout what Go prints. non-trivial = canonical layout accepted by Go; distinct by file tree")
 	r.Assume("metamorphic relation plus the Go toolchain (GOARCH=386) on the canonical layout; named non-struct types stay in the spine (the property hoists functions, methods and struct types)")
 	n := r.N(120, 3000)
 	variants := r.N(40, 150)
@@ -200,7 +264,7 @@ func runC16(r *core.Run) {
 	for i := range pkgs {
 		pkgs[i] = c16Gen(r.Seed, i)
 		dir := fmt.Sprintf("ref/o%06d/cmd%06d", i, i)
-		refCases = append(refCases, core.RefCase{Files: c16Canonical(pkgs[i], dir), MainDir: dir})
+		refCases = append(refCases, core.RefCase{Files: c16Canonical(pkgs[i], dir, true), MainDir: dir})
 	}
 	refs, err := core.RunRef(refCases)
 	if err != nil {
@@ -215,7 +279,7 @@ func runC16(r *core.Run) {
 			r.NoteReject(firstLine(ref.RejectMsg))
 			return
 		}
-		canon := c16RunGoat(refCases[i].Files, dir)
+		canon := c16RunGoat(c16Canonical(pkgs[i], dir, false), dir)
 		r.Eval(1)
 		refNS, canonNS := ref, canon
 		refNS.Out, canonNS.Out = c16StripStructs(ref.Out), c16StripStructs(canon.Out)
@@ -225,6 +289,11 @@ func runC16(r *core.Run) {
 		}
 		for k := 0; k < variants; k++ {
 			v := c16Layout(pkgs[i], core.Derive(r.Seed, "c16-layout", i*1000+k), dir)
+			if k%3 == 2 {
+				v.Files = c16AsLibrary(v.Files, dir)
+				v.Lib = true
+				r.Count("variants_as_imported_package", 1)
+			}
 			o := c16RunGoat(v.Files, dir)
 			r.Eval(1)
 			what := ""
@@ -257,9 +326,11 @@ func replayC16(r *core.Run, v *core.Violation) {
 	}
 	dir := ""
 	for k := range c.Files {
-		dir = k[:strings.LastIndex(k, "/")]
+		if d := k[:strings.LastIndex(k, "/")]; dir == "" || strings.Contains(d, "/cmd") {
+			dir = d
+		}
 	}
-	canon := c16RunGoat(c16Canonical(c.Pkg, dir), dir)
+	canon := c16RunGoat(c16Canonical(c.Pkg, dir, false), dir)
 	o := c16RunGoat(c.Files, dir)
 	fmt.Printf("--- canonical ---\n%s%s\n--- variant ---\n%s%s\n", canon.Out, canon.Err, o.Out, o.Err)
 	if o.Out != canon.Out || o.Err != canon.Err {
